@@ -28,6 +28,7 @@ type jobSpec struct {
 	NoNative      bool     `json:"no_native_replay,omitempty"` // harness uses stubs of code outside the repo
 	NativeDemo    []demoSpec `json:"native_demo,omitempty"`   // end-to-end demonstrations on the real stack, by assertion tag
 	TimeoutMs     int      `json:"timeout_ms,omitempty"`
+	MaxWorkers    int      `json:"max_workers,omitempty"`
 }
 
 type demoSpec struct {
@@ -141,7 +142,11 @@ func cmdCheck(args []string) int {
 		hdir := filepath.Join(verifRoot, job.Harness)
 		cfg := runConfig{Pkg: job.Pkg, HarnessDir: hdir, TimeoutMs: tmo, Seed: seed, Solver: "z3"}
 		b := time.Duration(*budget) * time.Second
-		pool := newPool(cfg, *workers)
+		nw := *workers
+		if job.MaxWorkers > 0 && job.MaxWorkers < nw {
+			nw = job.MaxWorkers
+		}
+		pool := newPool(cfg, nw)
 		defer pool.close()
 		jobReach := map[string]bool{}
 		ranAll := true
